@@ -80,11 +80,19 @@ Section Cache.
   Theorem get_cache_no_raise v fs ct e r : content_missing_total v = true -> get_cache H v fs ct e r <> GRaise.
   Proof.
     intros Hv. generalize (all_valid_no_raise v fs (visit r) Hv). unfold get_cache, is_valid_nested. simpl.
-    destruct ct, e, (all_valid H v fs (visit r)); simpl; congruence.
+    destruct ct, e, (handles_valid r), (all_valid H v fs (visit r)); simpl; congruence.
   Qed.
-  (** facts about the other branches: CSE hits are used without a validity check, errors never *)
-  Theorem cse_unchecked v fs e r : get_cache H v fs CT_CSE e r = GHit.
-  Proof. reflexivity. Qed.
+  (** facts about the other branches: a same-execution (CSE) hit is used iff every Handle in it is
+      still valid -- file values are not re-checked there --, errors are never replayed *)
+  Theorem cse_checks_handles_only v fs e r :
+    get_cache H v fs CT_CSE e r = if handles_valid r then GHit else GMiss.
+  Proof. unfold get_cache. simpl. destruct (handles_valid r); reflexivity. Qed.
+  Lemma handles_valid_spec r : handles_valid r = true <-> Forall (fun l => forall b, l = LHandle b -> b = true) (visit r).
+  Proof.
+    unfold handles_valid. rewrite forallb_forall, Forall_forall. split; intros Hx l Hin.
+    - intros b ->. now apply (Hx _ Hin).
+    - destruct l as [|o|b]; auto. now apply (Hx _ Hin).
+  Qed.
   Theorem errors_not_replayed v fs ct r : ct <> CT_CSE -> get_cache H v fs ct true r = GMiss.
   Proof. intros N. destruct ct; unfold get_cache; simpl; congruence. Qed.
 
